@@ -466,35 +466,7 @@ pub fn subjects(tier: &str) -> Vec<Subject> {
             ops: vec![Op::MultiPut { ks: vec![0, 1] }, fl.clone(), Op::Snap, Op::Put { k: 0, big: false }, fl.clone()],
         });
     }
-    if !quick {
-        let mut pp = big_blocks.clone();
-        pp.index_partitioning = true;
-        pp.filter_partitioning = true;
-        v.push(Subject {
-            name: "partitioned-pinned".into(),
-            cfg: pp,
-            ops: vec![Op::MultiPut { ks: vec![0, 1] }, fl.clone(), Op::Snap, Op::Put { k: 0, big: false }, fl.clone()],
-        });
-        v.push(Subject { name: "one-table".into(), cfg: base.clone(), ops: vec![Op::MultiPut { ks: vec![0, 1] }, fl.clone()] });
-        // after a major compaction with watermark 0: old version files still on disk
-        v.push(Subject {
-            name: "major-old-versions".into(),
-            cfg: base.clone(),
-            ops: vec![Op::MultiPut { ks: vec![0, 1] }, fl.clone(), Op::Snap, Op::Put { k: 0, big: false }, fl.clone(), Op::Major { w: Wm::Zero, target: u64::MAX }],
-        });
-        // ingestion: non-zero global seqno
-        v.push(Subject {
-            name: "ingested".into(),
-            cfg: big_blocks.clone(),
-            ops: vec![Op::MultiPut { ks: vec![0, 1] }, fl.clone(), Op::Snap, Op::Ingest { items: vec![(0, IKind::Val), (1, IKind::Tomb)] }],
-        });
-        let mut lz = big_blocks.clone().with_blob(16);
-        lz.lz4 = true;
-        v.push(Subject {
-            name: "lz4-blob".into(),
-            cfg: lz,
-            ops: vec![Op::Put { k: 0, big: true }, Op::Put { k: 1, big: false }, fl.clone(), Op::Snap, Op::Put { k: 1, big: true }, fl.clone()],
-        });
+    {
         let mut part = big_blocks.clone();
         part.index_partitioning = true;
         part.filter_partitioning = true;
@@ -512,6 +484,38 @@ pub fn subjects(tier: &str) -> Vec<Subject> {
             name: "hash-index".into(),
             cfg: hash,
             ops: vec![Op::MultiPut { ks: vec![0, 1] }, Op::Put { k: 0, big: false }, fl.clone()],
+        });
+    }
+    {
+        // ingestion: non-zero global seqno
+        v.push(Subject {
+            name: "ingested".into(),
+            cfg: big_blocks.clone(),
+            ops: vec![Op::MultiPut { ks: vec![0, 1] }, fl.clone(), Op::Snap, Op::Ingest { items: vec![(0, IKind::Val), (1, IKind::Tomb)] }],
+        });
+    }
+    if !quick {
+        let mut pp = big_blocks.clone();
+        pp.index_partitioning = true;
+        pp.filter_partitioning = true;
+        v.push(Subject {
+            name: "partitioned-pinned".into(),
+            cfg: pp,
+            ops: vec![Op::MultiPut { ks: vec![0, 1] }, fl.clone(), Op::Snap, Op::Put { k: 0, big: false }, fl.clone()],
+        });
+        v.push(Subject { name: "one-table".into(), cfg: base.clone(), ops: vec![Op::MultiPut { ks: vec![0, 1] }, fl.clone()] });
+        // after a major compaction with watermark 0: old version files still on disk
+        v.push(Subject {
+            name: "major-old-versions".into(),
+            cfg: base.clone(),
+            ops: vec![Op::MultiPut { ks: vec![0, 1] }, fl.clone(), Op::Snap, Op::Put { k: 0, big: false }, fl.clone(), Op::Major { w: Wm::Zero, target: u64::MAX }],
+        });
+        let mut lz = big_blocks.clone().with_blob(16);
+        lz.lz4 = true;
+        v.push(Subject {
+            name: "lz4-blob".into(),
+            cfg: lz,
+            ops: vec![Op::Put { k: 0, big: true }, Op::Put { k: 1, big: false }, fl.clone(), Op::Snap, Op::Put { k: 1, big: true }, fl.clone()],
         });
         v.push(Subject {
             name: "blob-relocated".into(),
